@@ -4,5 +4,5 @@ P('C05', shards=16,
   text='Generated histories of registrations, matching / non-matching / panicking requests and concurrent bursts run on one long-lived Mux (single goroutine, so sync.Pool hands the same Store back; reuse is observed by pointer identity). '
        'What the relay (before/after), the route handler and the no-route handler see - Store.I, every parameter lookup for every name of the table, RouteParamAny, the initial status, the request ID - must equal the same request on a fresh Mux '
        'and the reference router; IDs must be constant within and unique across requests; no accessor may panic. Bursts run under -race. Exploration, not proof.',
-  note='A sixth of the sequential requests forward another request through the Mux with Store.W as the writer (both judged); a second Mux serves requests in between; the no-route handler may be replaced between requests; a pattern may be registered again under another method after requests were served. Trusts the reference router and the fresh-Mux comparison; concurrent interleavings are sampled by the Go scheduler, not enumerated.',
+  note='A sixth of the sequential requests forward another request through the Mux with Store.W as the writer (both judged); a second Mux serves requests in between; the no-route handler may be replaced between requests; a pattern may be registered again under another method after requests were served; handlers may replace Store.W and Store.P by objects of their own. Trusts the reference router and the fresh-Mux comparison; concurrent interleavings are sampled by the Go scheduler, not enumerated.',
   design='3/C05')
